@@ -28,7 +28,9 @@ PROC_TIMEOUT_S = 20.0
 _real_open = builtins.open
 _real_os = {n: getattr(os, n) for n in
             ('rename', 'replace', 'mkdir', 'remove', 'unlink', 'rmdir', 'open', 'write', 'close',
-             '_exit', 'fork', 'waitpid', 'kill', 'link', 'symlink', 'truncate', 'fsync', 'fdatasync', 'getpid')}
+             '_exit', 'fork', 'waitpid', 'kill', 'link', 'symlink', 'truncate', 'fsync', 'fdatasync', 'getpid', 'read', 'urandom')}
+if hasattr(os, 'pread'):
+    _real_os['pread'] = os.pread
 
 
 # --------------------------------------------------------------------------- child side
@@ -578,8 +580,35 @@ def _install(ch):
         ch.effect('rmdir', path=rel)
         return _real_os['rmdir'](path, *a, **kw)
 
+    rfds = {}        # fds opened for reading under a read-fault plan: fd -> [plan, bytes handed out so far, size]
+
     def sim_os_open(path, flags, mode=0o777, *a, **kw):
         writing = flags & (os.O_WRONLY | os.O_RDWR | os.O_CREAT | os.O_TRUNC | os.O_APPEND)
+        if not writing and kw.get('dir_fd') is None:
+            # a program may read with os.open / os.read / os.pread instead of open(): the same read plans apply
+            try:
+                rel = ch.rel(path)
+            except Exception:
+                rel = None
+            if rel is not None and not (flags & getattr(os, 'O_DIRECTORY', 0)):
+                observe_path(path)
+                if ch.plan.get('log_reads'):
+                    ch.log({'k': 'read', 'path': rel})
+                rp = ch.reads.get(rel)
+                if rp:
+                    ch.log({'k': 'readfault', 'path': rel, 'plan': rp, 'via': 'os.open'})
+                    if rp.get('once'):
+                        ch.reads = {k_: v_ for k_, v_ in ch.reads.items() if k_ != rel}
+                    if rp['kind'] == 'oserror':
+                        code = getattr(errno_mod, rp['errno'])
+                        raise OSError(code, os.strerror(code), os.fspath(path))
+                    fd = _real_os['open'](path, flags, mode, *a, **kw)
+                    try:
+                        size = os.fstat(fd).st_size
+                    except OSError:
+                        size = 0
+                    rfds[fd] = [rp, 0, size]
+                    return fd
         if not writing or kw.get('dir_fd') is not None:
             return _real_os['open'](path, flags, mode, *a, **kw)
         rel = guard(path, 'os.open')
@@ -593,7 +622,47 @@ def _install(ch):
             ch.effect('write', path=ch.fdpaths[fd][1], size=len(data))
         return _real_os['write'](fd, data)
 
+    def _rfault(rp):
+        code = getattr(errno_mod, rp['errno']) if rp.get('errno') else errno_mod.EIO
+        raise OSError(code, os.strerror(code))
+
+    def sim_os_read(fd, n):
+        st = rfds.get(fd)
+        if st is None:
+            return _real_os['read'](fd, n)
+        rp, done, size = st
+        if rp.get('at_eof'):
+            data = _real_os['read'](fd, n)
+            if not data:
+                _rfault(rp)            # every byte was delivered; the read that would report end-of-file fails
+            return data
+        limit = int(rp.get('after', 0))
+        if limit == 0 or done >= limit:
+            _rfault(rp)
+        if done + n > limit and size > limit:
+            st[1] = limit
+            _rfault(rp)
+        data = _real_os['read'](fd, n)
+        st[1] = done + len(data)
+        return data
+
+    def sim_os_pread(fd, n, offset):
+        st = rfds.get(fd)
+        if st is None:
+            return _real_os['pread'](fd, n, offset)
+        rp, done, size = st
+        if rp.get('at_eof'):
+            data = _real_os['pread'](fd, n, offset)
+            if not data:
+                _rfault(rp)
+            return data
+        limit = int(rp.get('after', 0))
+        if limit == 0 or (offset + n > limit and size > limit):
+            _rfault(rp)
+        return _real_os['pread'](fd, n, offset)
+
     def sim_os_close(fd):
+        rfds.pop(fd, None)
         if fd in ch.fdpaths:
             rel = ch.fdpaths[fd][1]
             ch.effect('close', path=rel, size=-1)
@@ -625,6 +694,9 @@ def _install(ch):
         return _real_os['truncate'](path, length)
 
     os.open = sim_os_open
+    os.read = sim_os_read
+    if 'pread' in _real_os:
+        os.pread = sim_os_pread
     os.write = sim_os_write
     os.close = sim_os_close
     os.fsync = sim_fsync
@@ -650,6 +722,22 @@ def _install(ch):
         tempfile.tempdir = ch.tmp           # no probing of candidate directories; files there are effects like any other
         import random as _random
         _random.seed(0)
+        import hashlib as _hl
+        _ur = [0]
+
+        def _urandom(n):
+            out = b''
+            while len(out) < n:
+                _ur[0] += 1
+                out += _hl.sha256(b'tallysim-urandom-%d' % _ur[0]).digest()
+            return out[:n]
+        os.urandom = _urandom
+        _random._urandom = _urandom
+        try:
+            import secrets as _secrets
+            _secrets._sysrand = _random.SystemRandom()
+        except Exception:
+            pass
         import uuid as _uuid
         _cnt = [0]
 
